@@ -655,6 +655,10 @@ func (e *Exec) opaqueEq(a, b *opaqueStr) *Term {
 				n++
 			}
 			if n < len(byteSide) && (byteSide[n].tok != 0 || !byteSide[n].b.Const) {
+				// before giving up: the prefix compared so far may already be impossible on this path
+				if e.infeasibleHere(r) {
+					return tt.Bool(false)
+				}
 				if n == 0 && byteSide[0].tok == 0 && !byteSide[0].b.Const {
 					// symbolic byte against the first character of a number: equal only if that byte is in
 					// the alphabet; we cannot follow further
@@ -983,4 +987,19 @@ func describe(v Value) string {
 		return x.t.String() + "(" + describe(x.v) + ")"
 	}
 	return fmt.Sprintf("%T", v)
+}
+
+// infeasibleHere: is c unsatisfiable together with the current path condition?
+func (e *Exec) infeasibleHere(c *Term) bool {
+	if c.IsFalse() {
+		return true
+	}
+	if c.IsTrue() {
+		return false
+	}
+	if mv, ok := e.evalBool(c); ok && mv {
+		return false
+	}
+	r, _ := e.checkSatModel(c)
+	return r == Unsat
 }
